@@ -267,4 +267,48 @@ def Frame.Valid : Frame → Prop
 instance (f : Frame) : Decidable f.Valid := by
   cases f <;> simp only [Frame.Valid] <;> exact inferInstance
 
+/-! ## the buffers handed to the stream's writer (aliasing)
+
+`Stream.loop` hands the frame slice itself to `w.Write`. `io.Writer` implementations are not supposed to
+keep it, but the writer marbl is wired to in `cmd/proxy` does: `marbl.Handler.Write` puts `b` (not a
+copy) into every subscriber's channel and a goroutine sends it over the websocket later. The model
+therefore distinguishes what a copying writer stored at `Write` time from what a retaining writer
+finds behind the references it kept. Frames are written once into a buffer obtained by `newFrame`;
+`Alloc.fresh` is the code (`make([]byte, 0, 10+plen)`: a buffer nobody else refers to, never handed
+out again), `Alloc.pooled` is the defective variant that recycles a buffer once `Write` returned. -/
+
+/-- byte buffers by address (index) -/
+abbrev Heap := List Bytes
+
+inductive Alloc
+  | fresh    -- `make` per frame (the code)
+  | pooled   -- buffers go back to a free list after `w.Write(f)` returned
+  deriving DecidableEq, Repr
+
+structure WState where
+  heap : Heap := []
+  free : List Nat := []       -- recycled buffers (stays empty with `Alloc.fresh`)
+  kept : List Nat := []       -- references a retaining writer holds (marbl.Handler: subscriber channel)
+  copied : List Bytes := []   -- what a copying writer stored inside `Write`
+  deriving Repr
+
+/-- One frame: `newFrame` obtains a buffer, `send*` fills it, the writer goroutine calls `w.Write` with
+it (the retaining writer keeps the reference, the copying writer the contents). -/
+def sendFrame (a : Alloc) (s : WState) (f : Bytes) : WState :=
+  match a, s.free with
+  | .pooled, j :: rest =>
+    { heap := s.heap.set j f, free := rest ++ [j], kept := s.kept ++ [j], copied := s.copied ++ [f] }
+  | .pooled, [] =>
+    { heap := s.heap ++ [f], free := [s.heap.length], kept := s.kept ++ [s.heap.length], copied := s.copied ++ [f] }
+  | .fresh, _ =>
+    { heap := s.heap ++ [f], free := s.free, kept := s.kept ++ [s.heap.length], copied := s.copied ++ [f] }
+
+def sendAll (a : Alloc) (fs : List Bytes) : WState := fs.foldl (sendFrame a) {}
+
+/-- what a writer that retained the slices reads from them afterwards (websocket sender goroutine) -/
+def WState.retained (s : WState) : List Bytes := s.kept.map fun i => (s.heap[i]?).getD []
+
+/-- the byte stream a subscriber of the retaining writer receives -/
+def subscriberStream (a : Alloc) (fs : List Frame) : Bytes := (sendAll a (fs.map encode)).retained.flatten
+
 end Martian.Marbl
